@@ -211,3 +211,32 @@ Definition run_big (pagesize : Z) (n : nat) (seed : Z) (shift : nat) (r : statm)
                   jv_zs [sum_nums (fun m => kb m FPrivateHugetlb) ms] ]
         else jnone);
        JB (k_statm r) ].
+
+(* ---- handles / copies / oneshot() blocks over a sequence of kernel states (C13.Handles).
+   states: (has_rollup, rollup mode, roll-up, names that exist, mappings, statm); ops refer to states by index *)
+From PV Require Export C13.Handles.
+Definition mk_kmem (st : bool * Z * rollup * list bytes * list mapping * statm) : kmem :=
+  let '(hr, rmode, rl, ex, ms, r) := st in
+  {| km_ms := ms; km_statm := r; km_has_rollup := hr; km_rollup := fr rmode (k_rollup rl); km_probe := ex_of ex |}.
+Definition jv_mans (a : mans) : jv :=
+  match a with
+  | AInfo o => jv_outcome jv_zs o
+  | ARows o => jv_outcome jv_rows o
+  | AGrouped o => jv_outcome jv_grouped o
+  end.
+Inductive rop := ROp (o : cop nat) | RSet (i : nat).
+Definition run_handles (pagesize : Z) (sts : list (bool * Z * rollup * list bytes * list mapping * statm))
+           (ops : list (cop nat)) : jv :=
+  let ks := map mk_kmem sts in
+  let dflt := mk_kmem (false, 0, Build_rollup [] [], [], [], Build_statm [] [] [] [] [] [] []) in
+  let getk i := nth i ks dflt in
+  let ops' := map (fun o => match o with
+                            | OSetK _ i => OSetK kmem (getk i)
+                            | OEnter _ h => OEnter kmem h | OExit _ h => OExit kmem h | OCopy _ h => OCopy kmem h
+                            | ODeep _ h => ODeep kmem h | ONew _ => ONew kmem | OCall _ h q => OCall kmem h q
+                            end) ops in
+  let s0 := hinit kmem bytes mans (getk 0%nat) in
+  JL [ JL (map (fun k => JL [jpack (k_smaps (km_ms k)); JB (k_statm (km_statm k));
+                             match km_rollup k with FContent b => jpack b | _ => jpack [] end]) ks);
+       JL (map jv_mans (hrun kmem bytes mans m_read (m_info pagesize) (m_ans pagesize) m_uses s0 ops'));
+       JL (map (fun k => if m_wf k then JL (map (fun q => jv_mans (m_spec pagesize q k)) [QInfo; QAcc 0%nat; QAcc 1%nat; QAcc 2%nat]) else jnone) ks) ].
